@@ -51,8 +51,11 @@ class Check(PropertyCheck):
         kind = "solve" if i % 2 == 0 else "states"
         n_acc = 0
         if kind == "solve":
-            for _ in range(rng.randint(1, 3)):
-                rule = self.rule_token(rng)
+            # one in four: the observer-based rule (a module-level object with its own cached observers) solves the
+            # same instance object several times in a row, each time on a new dispatcher
+            repeat_obs = rng.random() < 0.25
+            for _ in range(rng.randint(2, 3) if repeat_obs else rng.randint(1, 3)):
+                rule = rng.choice(["omwkr", "omwkr", "sb:mwkr"]) if repeat_obs else self.rule_token(rng)
                 ch = rng.choice(["first", "random"])
                 draws = [rng.randint(0, 20) for _ in range(2 * gen.num_ops(jobs))]
                 lines.append(f"solve {rule} {ch} " + " ".join(map(str, draws)))
